@@ -38,11 +38,12 @@ type Network struct {
 }
 
 type WriteRec struct {
-	At  time.Duration
-	N   int
-	Len int
-	Err bool
-	KA  bool
+	Start time.Duration // when the Write call began (under back-pressure it may end much later)
+	At    time.Duration
+	N     int
+	Len   int
+	Err   bool
+	KA    bool
 }
 
 type DialRec struct {
@@ -265,6 +266,7 @@ func (c *End) Read(p []byte) (int, error) {
 }
 
 func (c *End) Write(p []byte) (int, error) {
+	began := c.e.Now()
 	windowed := false
 	c.peer.mu.Lock()
 	windowed = c.peer.RecvWindow > 0
@@ -305,7 +307,7 @@ func (c *End) Write(p []byte) (int, error) {
 		c.KeepaliveWrites++
 	}
 	if c.TrackWrites {
-		c.WriteLog = append(c.WriteLog, WriteRec{At: c.e.Now(), N: n, Len: len(p), Err: err != nil, KA: ka})
+		c.WriteLog = append(c.WriteLog, WriteRec{Start: began, At: c.e.Now(), N: n, Len: len(p), Err: err != nil, KA: ka})
 	}
 	if c.OnWrite != nil {
 		c.OnWrite(p, n, err)
